@@ -1,5 +1,5 @@
 import Capella.Driver.Util
-import Capella.Model.Cache
+import Capella.Model.CacheSM
 import Capella.Gen.Formats
 namespace Capella.Driver.Cache
 open Lean Capella.Driver Capella.Cache
@@ -19,6 +19,7 @@ def termJson : Capella.Cache.Term → Json
   | .call i t => Json.arr #[Json.str "call", jstr i, termJson t]
   | .fresh => Json.arr #[Json.str "fresh"]
   | .errImage s e => Json.arr #[Json.str "error_image", Json.str (stageName s), Json.str (errName e)]
+  | .errImageX s w => Json.arr #[Json.str "error_image", Json.str (stageName s), jstr w]
 
 def evJson : Ev → Json
   | .opened n => Json.arr #[Json.str "open", jstr n]
@@ -55,6 +56,105 @@ def convJson (c : Conv) : Json := Json.mkObj [
   ("hasConvert", Json.bool c.hasConvert), ("isFormat", Json.bool c.isFormat),
   ("isPretty", Json.bool c.isPretty), ("depends", optJ c.depends)]
 
+
+/-! second layer: call sequences on one diagram object, with injected faults -/
+
+def kindOf : String → Except String ExcKind
+  | "KeyError" => pure .keyError | "UnknownOutputFormat" => pure .unknownFormat | "Other" => pure .other
+  | s => throw s!"unknown exception kind {s}"
+
+def errFName : ErrF → String
+  | .base e => errName e
+  | .stored e => errName e
+  | .raised _ k => "Injected:" ++ String.ofList k.name
+  | .typeError => "TypeError"
+  | .noExtension => "ValueError"
+
+def reprJson : ReprOut Capella.Cache.Term → Json
+  | .short => Json.arr #[Json.str "repr"]
+  | .drawn d => Json.arr #[Json.str "repr", termJson d]
+
+def outJson : Out Capella.Cache.Term → Json
+  | .value d => termJson d
+  | .figure d => Json.arr #[Json.str "figure", termJson d]
+  | .repr r => reprJson r
+  | .bundle items => Json.arr #[Json.str "bundle", Json.arr (items.map fun p => Json.arr #[jstr p.1, termJson p.2]).toArray]
+  | .bundleNone => Json.arr #[Json.str "none"]
+  | .bundleText r => Json.arr #[Json.str "bundle_text", reprJson r]
+  | .written n d => Json.arr #[Json.str "written", optJ n, termJson d]
+  | .done => Json.arr #[Json.str "done"]
+
+def resFJson : Except ErrF (Out Capella.Cache.Term) → Json
+  | .ok t => Json.mkObj [("ok", outJson t)]
+  | .error e => Json.mkObj [("raise", Json.str (errFName e))]
+
+def stName : St Capella.Cache.Term → String
+  | .empty => "empty" | .rendered _ => "rendered" | .failed _ _ => "failed"
+
+def getBoolD (j : Json) (k : String) (d : Bool) : Bool :=
+  match j.getObjValAs? Bool k with | .ok b => b | .error _ => d
+
+def pairList (j : Json) (k : String) : Except String (List (Str × ExcKind)) := do
+  match j.getObjVal? k with
+  | .error _ => pure []
+  | .ok v =>
+    let arr ← v.getArr?
+    arr.toList.mapM fun x => do
+      let a ← x.getArr?
+      let n ← (a[0]?.getD Json.null).getStr?
+      let kd ← kindOf (← (a[1]?.getD Json.null).getStr?)
+      pure (n.toList, kd)
+
+def faultList (j : Json) (k : String) : Except String ConvFaults := do
+  match j.getObjVal? k with
+  | .error _ => pure []
+  | .ok v =>
+    let arr ← v.getArr?
+    arr.toList.mapM fun x => do
+      let a ← x.getArr?
+      let o ← (a[0]?.getD Json.null).getStr?
+      let i ← (a[1]?.getD Json.null).getStr?
+      let kd ← kindOf (← (a[2]?.getD Json.null).getStr?)
+      pure (o.toList, i.toList, kd)
+
+def optStrList (j : Json) (k : String) : Except String (Option (List Str)) :=
+  match j.getObjVal? k with
+  | .ok Json.null => pure none
+  | .error _ => pure none
+  | .ok _ => (getStrList j k).map some
+
+def entryOf (j : Json) : Except String (Entry × Bool) := do
+  let e ← j.getObjValAs? String "entry"
+  let pretty := getBoolD j "pretty" false
+  let pe := getBoolD j "pe" true
+  let draw := getBoolD j "draw" false
+  match e with
+  | "render" => pure (.render (← optStr j "fmt") pretty pe, pe)
+  | "as" => pure (.asFmt (← getStr j "fmt"), true)
+  | "html" => pure (.html, true)
+  | "repr" => pure (.repr draw, true)
+  | "mimebundle" =>
+    let exc ← (do match j.getObjVal? "exc" with | .error _ => pure [] | .ok _ => getStrList j "exc")
+    pure (.mimebundle (← optStrList j "inc") exc draw, true)
+  | "save" => pure (.save (getBoolD j "given" true) (← getStr j "fmt") pretty pe, pe)
+  | "invalidate" => pure (.invalidate, true)
+  | s => throw s!"unknown entry {s}"
+
+def seqLoop (E : Env Str Capella.Cache.Term) : St Capella.Cache.Term → List Json → Except String (List Json)
+  | _, [] => pure []
+  | st, c :: rest => do
+    let (en, pe) ← entryOf c
+    let files ← getStrList c "files"
+    let bad ← pairList c "bad"
+    let createOk := getBoolD c "create_ok" true
+    let q : Req Str Capella.Cache.Term :=
+      { openf := openOfF files bad, create := if createOk then .ok .fresh else .error .renderError }
+    let r := step E st q en
+    let created := r.2.1.contains Ev.fresh && willCreate st pe
+    let o := Json.mkObj [("trace", Json.arr (r.2.1.map evJson).toArray), ("result", resFJson r.2.2),
+      ("state", Json.str (stName r.1)), ("created", Json.bool created)]
+    pure (o :: (← seqLoop E r.1 rest))
+
 def T := Capella.Gen.Formats.table
 
 def handle (op : String) (j : Json) : Except String Json := do
@@ -76,6 +176,16 @@ def handle (op : String) (j : Json) : Except String Json := do
       | _, _ => throw "via: render | as (with fmt)"
     pure (Json.mkObj [("trace", Json.arr (r.1.map evJson).toArray), ("result", resJson r.2),
       ("handler", match cacheOf spec with | none => Json.null | some h => Json.str (handlerName h))])
+  | "cache.seq" =>
+    let spec ← specOf (← j.getObjValAs? String "spec")
+    let E : Env Str Capella.Cache.Term :=
+      { T := T, ops := termOpsF (← faultList j "conv_faults"),
+        cfg := { cache := (cacheOf spec).isSome, allowRender := (← getBool j "allow") },
+        u := (← getStr j "uuid"), name := (← getStr j "name"), mimes := Capella.Gen.Formats.mimes }
+    let calls ← (← j.getObjVal? "calls").getArr?
+    pure (Json.arr (← seqLoop E .empty calls.toList).toArray)
+  | "cache.dump-mimes" =>
+    pure (Json.arr (Capella.Gen.Formats.mimes.map fun p => Json.arr #[jstr p.1, jstr p.2]).toArray)
   | "cache.convert_format" =>
     let src ← optStr j "src"
     let tgt ← getStr j "tgt"
